@@ -12,8 +12,11 @@ int vh_tid_of_arg(void* arg);
 
 void vs_reset(int nthreads);                       /* new case: all primitives fresh, clock 0 */
 void vs_reg_mutex(void* addr, int idx);            /* recursive attribute is read from the real pthread_mutex_t */
-void vs_reg_cond(void* addr, int idx);
+void vs_reg_cond(void* addr, int idx);             /* the clock comes from the attribute seen at pthread_cond_init */
 void vs_reg_sem(void* addr, int idx);              /* initial value is read from the real sem_t */
+int vs_uninit(void);                               /* bit mask of registered primitives whose *_init was never called: mutex idx,
+                                                      cond VS_NM+idx, sem VS_NM+VS_NC+idx */
+int vs_cond_clock(int idx);                        /* clock id the condition variable measures deadlines against */
 void vs_spawn(int t, void* (*fn)(void*), void* arg); /* a thread that runs from the beginning of the scenario */
 void vs_teardown(void);                            /* unwinds and joins every real thread of the case */
 
